@@ -32,7 +32,7 @@ variants() {
     C08:thorough|C09:thorough) echo "seq race:conc race:conc:gmp2 conc:gmp4" ;;
     C11:quick|C17:quick|C20:quick) echo "race" ;;
     C11:thorough|C17:thorough|C20:thorough) echo "race race:atc0 norace:gmp4 race:gmp2" ;;
-    C13:quick|C14:quick) echo "race race:gmp3" ;;   # gmp3: GOMAXPROCS below the CPU count (what 'parallelism <= 0' must follow)
+    C13:quick) echo "race race:gmp3" ;;   # gmp3: GOMAXPROCS below the CPU count (what 'parallelism <= 0' must follow)
     *:quick)       echo "race" ;;
     *:thorough)    echo "race norace race:gmp2 norace:gmp4 race:gmp1" ;;
   esac
